@@ -87,11 +87,12 @@ CLAIMS = {
    note=TB + "F1 was a genuine defect, repaired in /repo by fix: 1e88610.",
    tech="Lean 4 proof by unfolding the decoder + kernel-evaluated refutation of the pinned definition + per-field differential execution"),
  'C11': dict(cat='proof', ref='DESIGN 5 C11',
-   text="Partial proof + differential execution. Proved in Lean: the derived key copies rho and tr, the derivation reads neither K nor t0, key generation stores the same rho and tr in both structs, and equal t1-precomputes make the two "
-        "public keys the same struct. Not proved: the recomputed t1 precompute equals the generated one for every key (NTT pipeline); decided on every run by field-by-field comparison of derived and generated structs for generated and "
-        "round-tripped private keys, and by equal verification decisions on valid and invalid signatures.",
+   text="Lean theorem for every seed and each parameter set (both build modes): whenever key generation returns (pk, sk), private_to_public_key(sk) = pk as structs - same rho, same tr, same verifier precompute coefficient by coefficient - "
+        "and the same for the private key after a serialisation round trip (derived_public_key_is_the_generated_one). Equal structs serialise to the same bytes and make the same verification decision on every input; with C09 the keys obtained "
+        "by generation, deserialisation and derivation are interchangeable. Proof: mont_reduce(to_mont(x)) = x mod q, mat_vec_mul maps congruent vectors to congruent vectors, the inverse NTT returns canonical residues so congruent inputs "
+        "give equal outputs, s2 is recovered exactly. Also proved: the derivation reads neither K nor t0. On every run derived and generated structs are compared field by field against the crate, with equal verification decisions.",
    note=TB + "F2 (assertion on t0 in derivation) was a genuine defect, repaired in /repo by fix: 0639504.",
-   tech="Lean 4 proof of copied / unread fields + struct-level differential execution"),
+   tech="Lean 4 proof that the derived struct equals the generated one (congruence through mat_vec_mul and the inverse NTT) + struct-level differential execution"),
  'C13': dict(cat='proof', ref='DESIGN 5 C13',
    text="Proof for the whole verification path + partial proof elsewhere + hostile-input execution. Proved in Lean for all inputs and both build modes: expand_public followed by verify / hash_verify / _internal_verify never panics on ANY "
         "public-key bytes and ANY signature bytes (verification_path_never_panics: sig_decode's accumulator and hint index discipline, sample_in_ball's Hamming-weight assertions, rej_ntt_poly, the lazy NTT pipeline, use_hint within w1_encode's "
